@@ -18,9 +18,9 @@ ID = "C16"
 LEAN_MODULES = ["MpfVerif.Props.C16"]
 PROPS_FILE = "MpfVerif/Props/C16.lean"
 MANIFEST = {
-  "text": "Proof on a Lean model of the template evaluator (expression AST of the supported grammar over int / exact dyadic float / bool / str / None / tuples / placeholder objects; `eval` transcribes BasePlaceholderManager._eval_* including the subscription list and a log of the locations read): the operator tables of the model equal the OPERATORS / BOOL_OPERATORS / COMPARISONS dict literals regenerated from placeholder_manager.py on every run (`decide`); every location read during an evaluation is in the returned subscription list, on value and on error paths; if another environment agrees on all subscribed locations the evaluation gives the identical result (a template that is not notified cannot be stale). The model (and its Python semantics, shared operator functions) is tied to the code and to CPython by a correspondence run: generated expressions up to size 12 evaluated by the real evaluate / evaluate_and_subscribe, by the Lean driver and by CPython eval of the same text; and change histories of machine variables, a setting, player variables and a monitored device attribute checking that the future completes after every change of something read.",
+  "text": "Proof on a Lean model of the template evaluator (expression AST of the supported grammar over int / exact dyadic float / bool / str / None / tuples / placeholder objects; `eval` transcribes BasePlaceholderManager._eval_* including the subscription list and a log of the locations read; `py` is Python's semantics for the same grammar, strict = all and/or operands evaluated, lazy = Python's short-circuit), all by structural induction over every expression and environment: (tables_correct) the operator tables the model dispatches through equal the OPERATORS / BOOL_OPERATORS / COMPARISONS dict literals regenerated from placeholder_manager.py on every run (`decide`); (reads_subscribed) every location read during an evaluation is in the returned subscription list, on value and on error paths; (fresh) if another environment has the same parameters and agrees on every subscribed location, the evaluation gives the identical result - value or error class, subscription list, read log - so a template that is not notified cannot be stale; (eval_is_python) in both modes the evaluator's outcome is the strict Python outcome seen through MPF's error mapping: Python's value, or the default exactly when Python raises TypeError / a name is missing (evaluate) / an attribute is read from a falsy parent (subscribe), a rejection for every other exception; (all_operands_agree_with_short_circuit, value_is_pythons) whenever the strict evaluation yields a value, Python's short-circuit evaluation yields the same value, so every value the evaluator returns is Python's value. The model and its operator semantics are tied to the code and to CPython by a correspondence run: generated expressions up to size 12 evaluated by the real evaluate / evaluate_and_subscribe, by the Lean driver (eval in both modes, py strict, py lazy, read log) and by CPython eval of the same text; and change histories of machine variables, a setting, player variables and a monitored device attribute checking that the future completes after every change of something read.",
   "note": "Trusted: Lean kernel + {propext, Classical.choice, Quot.sound}; the hand-written model Model/Template.lean incl. its operator semantics (validated against CPython on every run, not proved); harness/corr/C16.py table translator; event delivery of machine_var_/player_ events (C01) and DeviceMonitor. Documented deviation from Python: all and/or operands are evaluated. Chained comparisons, operators outside the tables, slices, str %, float pow / inexact division are outside the model (rejected by MPF or marked unmodelled and skipped).",
-  "technique": "Lean 4 theorems (structural induction on the expression, `decide` on regenerated tables) + differential correspondence against the real evaluator and CPython eval as oracle",
+  "technique": "Lean 4 theorems (structural induction on the expression for fresh / reads_subscribed / eval_is_python / strict-vs-short-circuit, `decide` on regenerated tables) + differential correspondence against the real evaluator and CPython eval as oracle",
   "translated": True,
 }
 RULE = ("expressions of the supported grammar generated top-down with size <= 12 over constants (ints, exact dyadic floats, "
